@@ -28,6 +28,7 @@ from datetime import datetime, timezone
 from typing import Any, Callable, Iterable, List, Optional, Sequence, TypeVar, cast
 
 from semantiva.data_processors.data_processors import ParameterInfo, _NO_DEFAULT
+from semantiva.pipeline._param_resolution import _default_for
 from semantiva.execution.executor.executor import (
     SemantivaExecutor,
     SequentialSemantivaExecutor,
@@ -663,6 +664,23 @@ class SemantivaOrchestrator(ABC):
         for k, v in defaults.items():
             if k not in params_out:
                 params_out[k] = serialize_json_safe(v)
+                source_out[k] = "default"
+        # Remaining processor parameters follow the run-time resolution order
+        # (configuration > context > signature default).
+        try:
+            names = list(node.processor.get_processing_parameter_names())
+        except Exception:
+            names = []
+        for k in names:
+            if k in params_out:
+                continue
+            if k in ctx_view:
+                params_out[k] = serialize_json_safe(ctx_view[k])
+                source_out[k] = "context"
+                continue
+            default = _default_for(node.processor.__class__, k)
+            if default is not _NO_DEFAULT:
+                params_out[k] = serialize_json_safe(default)
                 source_out[k] = "default"
         return params_out, source_out
 
